@@ -5,5 +5,5 @@ LEVEL = "model_checking"
 
 def run(ctx, args):
     run_focus(ctx, "C07", [("MC_ProxyC07q.cfg" if ctx.quick else "MC_ProxyC07t.cfg", 1, 1)],
-              reach=(), driver_env={"VERIF_REPS": 3 if ctx.quick else 6},
-              rule="requests whose top Via has rport absent / valueless / spoofed and received absent / spoofed, 1-4 Via entries, received-support on and off, all relaying paths")
+              reach=(), driver_env={"VERIF_REPS": 3 if ctx.quick else 6}, extra_drivers=[("TestVfWiring", {})],
+              rule="requests whose top Via has rport absent / valueless / spoofed and received absent / spoofed, 1-4 Via entries, received-support on and off, all relaying paths; plus the YAML wiring: startProxy from YAML with no-received true / false / absent, real UDP listener, accepted TCP connection, outbound TCP connections to a TCP backend and a TCP next hop (request sent back over them)")
